@@ -255,8 +255,9 @@ def setMember (kvs : List (String × Json)) (k : String) (v : Json) : List (Stri
 /-- `populateRawPublicKey` -/
 def rawKey (k : DocKey) : Option Json :=
   let base : List (String × Json) :=
-    [("id", .str k.id), ("type", .str k.type),
-     ("purposes", match k.purposes with | some ps => .arr (ps.map .str) | none => .null)]
+    [("id", .str k.id), ("type", .str k.type)] ++
+     -- a key without purposes is a general key: the member is left out (D26)
+     (match k.purposes with | some (p :: ps) => [("purposes", .arr ((p :: ps).map .str))] | _ => [])
   match k.jwk with
   | some j => some (.obj (base ++ [("publicKeyJwk", j)]))
   | none =>
